@@ -36,9 +36,8 @@ func (m *Manager) Acquire(keys [][]byte) *Guard {
 	indices := make([]int, 0, len(keys))
 body:
 	for _, key := range keys {
-		if len(key) == 0 {
-			continue
-		}
+		// The empty key is a key like any other: two requests that share it must exclude
+		// each other.
 		h := kv.MemHash(key)
 		idx := int(h % uint64(len(m.stripes)))
 		// deduplicate identical indices for identical keys
